@@ -27,7 +27,11 @@ std::string join_quoted(const std::vector<std::string>& strs, char sep,
         if (i != 0)
             out += sep;
 
-        if (strs[i].find(sep) != std::string::npos)
+        // quote fields containing the separator, and also those which
+        // split_quoted() would not read back unquoted: empty fields vanish
+        // between separators, and a leading quote starts a quoted field.
+        if (strs[i].empty() || strs[i][0] == quote ||
+            strs[i].find(sep) != std::string::npos)
         {
             out += quote;
             for (std::string::const_iterator it = strs[i].begin();
